@@ -166,12 +166,19 @@ def a64InstPost (pre post : Y) (sel : Nat) : Bool :=
   | .bool b => b
   | _ => if a64InstPre pre post sel then false else (sel / 2) % 2 == 1
 
+def isNullY : Y → Bool
+  | .null => true
+  | _ => false
+
+def isTrueY : Y → Bool
+  | .bool true => true
+  | _ => false
+
 /-- an AArch64 memory entry can be written: known base/offset/index classes, a scale that an access
     without index register can have unless an index is possible, not pre- and post-indexed at once -/
 def a64LiveMem (b off i s pre post : Y) : Bool :=
   a64LiveBase b && a64LiveOff off && a64LiveIndex i && liveScale s && liveTri pre && liveTri post &&
-  ((i matches .null) → scaleAcceptsOne s) &&
-  !((pre matches .bool true) && (post matches .bool true))
+  (!isNullY i || scaleAcceptsOne s) && !(isTrueY pre && isTrueY post)
 
 def condEq : Txt := [69, 81]   -- "EQ"
 
@@ -180,7 +187,8 @@ def condEq : Txt := [69, 81]   -- "EQ"
 def liveOperand (isa : Isa) (e : EOperand) : Bool :=
   match isa, e with
   | .x86, .reg (some c) _ _ => x86LiveClass c
-  | .x86, .mem b off i s _ _ => x86LiveAddr b && x86LiveOff off && x86LiveAddr i && liveScale s
+  | .x86, .mem b off i s pre post =>
+      x86LiveAddr b && x86LiveOff off && x86LiveAddr i && liveScale s && liveTri pre && liveTri post
   | .x86, .imm (.str t) => t == tInt
   | .x86, .ident => true
   | .a64, .reg _ p s => a64LiveReg p s
